@@ -136,6 +136,19 @@ func (s respScript) header(key string) http.Header {
 	case "cut-short":
 		a := hsclient.AcceptFor(key)
 		h["Sec-Websocket-Accept"] = []string{a[:len(a)-1]}
+	case "padding-bits":
+		// the digest's last base64 digit with its two unused low bits set: another
+		// string, which a lenient decoder maps to the same 20 bytes
+		a := []byte(hsclient.AcceptFor(key))
+		const alpha = "ABCDEFGHIJKLMNOPQRSTUVWXYZabcdefghijklmnopqrstuvwxyz0123456789+/"
+		i := len(a) - 2 // the digit before the single '='
+		a[i] = alpha[(strings.IndexByte(alpha, a[i])|3)^func() int {
+			if strings.IndexByte(alpha, a[i])&3 == 3 {
+				return 1
+			}
+			return 0
+		}()]
+		h["Sec-Websocket-Accept"] = []string{string(a)}
 	case "extended":
 		h["Sec-Websocket-Accept"] = []string{hsclient.AcceptFor(key) + "="}
 	}
@@ -291,7 +304,7 @@ var (
 	c13Statuses  = []int{101, 200, 400}
 	c13ConnVals  = []string{"Upgrade", "upgrade", "keep-alive, Upgrade", "keep-alive", "", hsAbsent, "close upgrade"} // the last one: one element, the keyword glued by white space
 	c13UpgVals   = []string{"websocket", "WebSocket", "websockets", "h2c, websocket", "", hsAbsent, "h2c\twebsocket"} // ditto, with a tab
-	c13Accepts   = []string{"correct", "other-key", "absent", "case-flipped", "cut-short", "extended"}
+	c13Accepts   = []string{"correct", "other-key", "absent", "case-flipped", "cut-short", "extended", "padding-bits"}
 	c13RespProto = []string{"", "chat", "CHAT", "other", "cha", "chatx", "other, chat", "chat, other", "other\nchat", "chat\nother"} // none, requested, other letter case, unrequested, proper prefix / extension of a requested one
 	c13ReqLists  = [][]string{nil, {"chat"}, {"chat", "echo"}}
 )
@@ -512,7 +525,8 @@ type c13ReqCase struct {
 var (
 	c13Schemes    = []string{"ws", "wss", "http", "https"}
 	c13SubLists   = [][]string{nil, {"a"}, {"a", "b"}}
-	c13ExtraHdrs  = []string{"Connection: close", "Sec-WebSocket-Key: x", "X-Custom: 1", "Origin: http://o"}
+	// "Cookie" twice: one header with two values; "raw:" = the caller wrote the map key by hand, not in canonical form
+	c13ExtraHdrs  = []string{"Connection: close", "Sec-WebSocket-Key: x", "X-Custom: 1", "Origin: http://o", "Cookie: a=1", "Cookie: b=2", "raw:x-tenant: t1"}
 	c13Hosts      = []string{"", "override.example"}
 	c13Handshakey = map[string]bool{"Connection": true, "Upgrade": true, "Sec-Websocket-Key": true, "Sec-Websocket-Version": true, "Sec-Websocket-Protocol": true, "Sec-Websocket-Extensions": true}
 )
@@ -565,9 +579,17 @@ func c13ReqOne(c *fw.Ctx, cs c13ReqCase) {
 	ctx, cancel := context.WithTimeout(context.Background(), 5*time.Second)
 	defer cancel()
 	hdr := http.Header{}
+	want := map[string][]string{} // what the caller's (non-handshake) headers amount to, by the key the caller used
 	for _, h := range cs.Headers {
-		kv := strings.SplitN(h, ": ", 2)
+		raw := strings.HasPrefix(h, "raw:")
+		kv := strings.SplitN(strings.TrimPrefix(h, "raw:"), ": ", 2)
+		if raw {
+			hdr[kv[0]] = append(hdr[kv[0]], kv[1])
+			want[kv[0]] = append(want[kv[0]], kv[1])
+			continue
+		}
 		hdr.Add(kv[0], kv[1])
+		want[http.CanonicalHeaderKey(kv[0])] = append(want[http.CanonicalHeaderKey(kv[0])], kv[1])
 	}
 	o := hsDial(ctx, cs.Scheme+"://example.com/p?q=1",
 		websocket.DialOptions{Subprotocols: cs.Subprotocols, HTTPHeader: hdr, Host: cs.Host, CompressionMode: hsMode(cs.Mode)},
@@ -627,14 +649,18 @@ func c13ReqOne(c *fw.Ctx, cs c13ReqCase) {
 	if strings.Join(gotOffer, ",") != strings.Join(wantOffer, ",") {
 		bad("extension-offer", "Sec-WebSocket-Extensions = %q, mode %s implies %v", h["Sec-Websocket-Extensions"], cs.Mode, wantOffer)
 	}
-	for _, hh := range cs.Headers {
-		kv := strings.SplitN(hh, ": ", 2)
-		k := http.CanonicalHeaderKey(kv[0])
-		if c13Handshakey[k] {
+	for k, vals := range want {
+		if c13Handshakey[http.CanonicalHeaderKey(k)] {
 			continue // collides with a handshake header: well-formedness wins, checked above
 		}
-		if v := h[k]; len(v) != 1 || v[0] != kv[1] {
-			bad("caller-header-lost", "caller header %q arrived as %q", hh, v)
+		// all values, in order, under the key the caller used (net/http sends map keys as they are)
+		// or under its canonical form
+		got := h[k]
+		if len(got) == 0 {
+			got = h[http.CanonicalHeaderKey(k)]
+		}
+		if strings.Join(got, "\x00") != strings.Join(vals, "\x00") {
+			bad("caller-header-lost", "caller header %q with values %q arrived as %q", k, vals, got)
 		}
 	}
 	if cs.Host != "" && r.Host != cs.Host {
